@@ -502,3 +502,56 @@ fn data_on_the_segment_that_completes_the_handshake_is_not_discarded() {
     assert!(got.get(), "server never received the data");
     assert_eq!(sent.get(), 1, "the data segment had to be retransmitted although it was delivered");
 }
+
+/// Same lost final ACK as above, but the side that sent it keeps its socket
+/// open (the application is still holding the stream). Its TCB is Closed and
+/// ignored every retransmitted FIN, so the LastAck peer ran out of
+/// retransmits, timed out and flushed data its application had not read yet.
+/// A cleanly closed TCB must keep re-ACKing the peer's FIN while it exists
+/// (the one TIME_WAIT duty that matters on a lossy fabric).
+#[test]
+fn closed_socket_still_acks_a_retransmitted_fin() {
+    let result: Rc<std::cell::RefCell<Option<std::io::Result<Vec<u8>>>>> = Rc::new(std::cell::RefCell::new(None));
+    let r2 = result.clone();
+    ClientServer::new()
+        .server("server", async move {
+            let l = TcpListener::bind("0.0.0.0:9000").await.unwrap();
+            let (mut s, _) = l.accept().await.unwrap();
+            tokio::time::sleep(Duration::from_millis(10)).await;
+            s.shutdown().await.unwrap();
+            // read only after the FIN retransmissions would have run out
+            tokio::time::sleep(Duration::from_millis(50)).await;
+            let mut got = Vec::new();
+            let r = s.read_to_end(&mut got).await.map(|_| got);
+            *r2.borrow_mut() = Some(r);
+            std::future::pending::<()>().await;
+        })
+        .run("client", async move {
+            let mut c = TcpStream::connect("server:9000").await.unwrap();
+            let server_ip = c.peer_addr().unwrap().ip();
+            let mut fin_seen = false;
+            let mut dropped = false;
+            rule(move |p: &Packet| {
+                if let Transport::Tcp(s) = &p.payload {
+                    if p.src == server_ip && s.flags.fin {
+                        fin_seen = true;
+                    }
+                }
+                if fin_seen && !dropped && p.src != server_ip && is_pure_ack(p) {
+                    dropped = true;
+                    return Verdict::Drop;
+                }
+                Verdict::Pass
+            })
+            .forget();
+            c.write_all(b"hello").await.unwrap();
+            c.shutdown().await.unwrap();
+            let mut b = [0u8; 1];
+            assert_eq!(c.read(&mut b).await.unwrap(), 0);
+            // keep the stream alive: the TCB stays in the table in state Closed
+            tokio::time::sleep(Duration::from_millis(120)).await;
+            drop(c);
+        });
+    let r = result.borrow_mut().take().expect("server never finished reading");
+    assert_eq!(r.expect("unread data lost after a single dropped ACK"), b"hello");
+}
